@@ -95,15 +95,20 @@ def features(P):
     return sorted(fs)
 
 
-def gen_problem(g, conj):
+def gen_problem(g, conj, cond=False):
     """conj: preconditions and goals are conjunctions of literals (possibly under forall) -- the class on which
-    the disjunction-splitting normalisation of the compiler is not involved"""
-    for _ in range(2000):
+    the disjunction-splitting normalisation of the compiler is not involved; cond: at least two conditional
+    effects, one of them a delete (the effects for which tags, cancellation and relevance matter)"""
+    for _ in range(20000):
         P = g.problem()
         if not (1 <= len(upj.keys_of(P)) <= MAX_KEYS and one_effect_per_ground_fluent(P)):
             continue
         if conj and {"disj-pre", "disj-goal"} & set(features(P)):
             continue
+        if cond:
+            ce = [ef for a in P["actions"] for ef in a["effects"] if ef["c"]["op"] != "const"]
+            if len(ce) < 2 or not any(ef["v"]["op"] == "const" and ef["v"]["v"]["b"] is False for ef in ce):
+                continue
         return P
     raise MachineryError("generator yields no problem inside the C30 input class")
 
@@ -453,7 +458,7 @@ def make_jobs(ctx, n_explicit, n_contingent, n_dom_trials):
         return kw
 
     for k in range(n_explicit):
-        P = gen_problem(g, k % 2 == 0)
+        P = gen_problem(g, k % 2 == 0, k % 3 != 0)
         if k % 4 < 2:
             P = retarget_goal(ctx.rng, P)
         n = len(upj.keys_of(P))
@@ -475,7 +480,7 @@ def make_jobs(ctx, n_explicit, n_contingent, n_dom_trials):
             E.insert(ctx.rng.randint(0, len(E)), x)
             add(fam="explicit", P=P, inits=E, base=b["id"], variant="ext")
     for k in range(n_contingent):
-        P = gen_problem(g, k % 2 == 0)
+        P = gen_problem(g, k % 2 == 0, k % 3 != 0)
         if k % 4 < 2:
             P = retarget_goal(ctx.rng, P)
         add(fam="contingent", P=P, cons=gen_constraints(ctx.rng, len(upj.keys_of(P))))
